@@ -258,8 +258,12 @@ def check(ctx):
     # ---- R6 client -----------------------------------------------------------------------------
     cf = ctx.fn("elexmodel.client", "ModelClient.get_national_summary_votes_estimates")
     cs = b.summarize(cf)
-    need = any("ModelClientException" in ir.show(t, maxdepth=2) and pc and pc[-1][1] and pc[-1][0] == ("cmp", "is", ("attr", ("param", "self"), "model"), NONE)
-               for pc, t, n in cs.raises)
+    no_model = ("cmp", "is", ("attr", ("param", "self"), "model"), NONE)
+
+    def _when_no_model(c):  # the condition holds whenever self.model is None (the test itself, or a disjunction containing it)
+        return c == no_model or (c[0] == "bool" and c[1] == "or" and any(_when_no_model(x) for x in c[2]))
+
+    need = any("ModelClientException" in ir.show(t, maxdepth=2) and pc and pc[-1][1] and _when_no_model(pc[-1][0]) for pc, t, n in cs.raises)
     ctx.ob("C08.R6.model", f"{cf.qualname}|requires a model", need, cf.where(),
            "raises ModelClientException when no estimate run has happened" if need else "does not reject a missing model with the client error")
     d = next((x for _, t_, _ in cs.effects for x in ir.walk(t_) if x[0] == "loopout" and x[3] == ("dict", ())), None)
